@@ -5,6 +5,7 @@
 -/
 import PygModel.Ops
 import PygProofs.Lemmas.OpsLemmas
+import PygProofs.Lemmas.OpsFLemmas
 
 namespace Pyg.Props.C08
 open Pyg Pyg.Align Pyg.Ops
@@ -180,6 +181,104 @@ theorem mean_spec (vs : List (Option Rat)) :
     | cons v vs ih => cases v <;> simp [List.filter, ih]
   simp only [Agg.at, hc, sumAt, foldl_add_getD]
   cases h : vs.filterMap id <;> simp
+
+/-! ## DataFrames with several columns (`PygModel/OpsF.lean`)
+`cellD d f m c t` is the cell `(t, c)` of `f` as the operator sees it: the value that `_df_reindex(f, index, m)` puts at
+label `t` of column `c` (`m = none`: the plain lookup), and `d` if `f` has no column `c`.
+`frameCols ch a b` is the header of the result. -/
+
+/-- **value, index and columns at once**: for two frames with several columns each, `a op b` is the frame on the joint
+index whose cell `(t, c)` is `a[t, c] op b[t, c]`, where a column that one side lacks counts as the operation's neutral
+element (which only happens under the column policy `'oj'`, see `binopF_columns`); without any result column the code
+returns the empty `pd.Series({})` -/
+theorem binopF_value (op : Op) (how : How) (m : Option Dir) (ch : ColHow) (a b : RFrame)
+    (ha : a.cols.length > 1) (hb : b.cols.length > 1) :
+    ∃ ix, joinIndex how [a.idx, b.idx] = some ix ∧
+      binopF op how m ch (.df a) (.df b) =
+        if frameCols ch a b = [] then .ts { idx := [], vals := [] }
+        else .df { idx := ix, cols := (frameCols ch a b).map fun c =>
+                     (c, ix.map fun t => op.appO (cellD (some op.neutral) a m c t) (cellD (some op.neutral) b m c t)) } := by
+  obtain ⟨ix, hix⟩ := joinIndex_two how a.idx b.idx
+  refine ⟨ix, hix, ?_⟩
+  have h1 : indexesOfF [FOperand.df a, FOperand.df b] = [a.idx, b.idx] := rfl
+  have h2 : multiNames [FOperand.df (reindexF a ix m), FOperand.df (reindexF b ix m)] = [a.names, b.names] := by
+    rw [multiNames_frames _ _ (by rw [reindexF_ncols]; exact ha) (by rw [reindexF_ncols]; exact hb), reindexF_names, reindexF_names]
+  simp only [binopF, h1, hix, alignF, kernelF, h2, resultCols_two]
+  cases hc : frameCols ch a b with
+  | nil => simp
+  | cons c cs =>
+    simp only [List.cons_ne_nil, if_false]
+    congr 2
+    apply List.map_congr_left
+    intro c' _
+    rw [col_value op _ c' a b ix m ha hb]
+
+/-- **columns**: the result header is `frameCols`, whose members are the common columns under `'ij'` … -/
+theorem binopF_columns_ij (a b : RFrame) (c : String) : c ∈ frameCols .ij a b ↔ c ∈ a.names ∧ c ∈ b.names := by
+  unfold frameCols
+  split
+  · rename_i h; rw [h]; simp
+  · simp [colsJoin, mem_sortS, mem_interS]
+
+/-- … and the union of the columns under `'oj'` -/
+theorem binopF_columns_oj (a b : RFrame) (c : String) : c ∈ frameCols .oj a b ↔ c ∈ a.names ∨ c ∈ b.names := by
+  unfold frameCols
+  split
+  · rename_i h; rw [h]; simp
+  · simp [colsJoin, mem_sortS, mem_unionS]
+
+/-- the result header has no duplicates; it is sorted unless both frames have the same header (then it is that header) -/
+theorem binopF_columns_nodup (ch : ColHow) (a b : RFrame) (ha : a.names.Nodup) : (frameCols ch a b).Nodup := by
+  unfold frameCols
+  split
+  · exact ha
+  · exact sortedS_nodup _ (sorted_sortS _)
+
+theorem binopF_columns_sorted (ch : ColHow) (a b : RFrame) (h : b.names ≠ a.names) : SortedS (frameCols ch a b) := by
+  simp only [frameCols, h, if_false]
+  exact sorted_sortS _
+
+/-- the header of the result frame (a frame whenever there is a result column at all) -/
+theorem binopF_columns (op : Op) (how : How) (m : Option Dir) (ch : ColHow) (a b : RFrame)
+    (ha : a.cols.length > 1) (hb : b.cols.length > 1) :
+    (frameCols ch a b = [] ∧ binopF op how m ch (.df a) (.df b) = .ts { idx := [], vals := [] }) ∨
+    (frameCols ch a b ≠ [] ∧ ∃ r, binopF op how m ch (.df a) (.df b) = .df r ∧ r.names = frameCols ch a b) := by
+  obtain ⟨ix, _, h⟩ := binopF_value op how m ch a b ha hb
+  by_cases hc : frameCols ch a b = []
+  · exact .inl ⟨hc, by rw [h, if_pos hc]⟩
+  · refine .inr ⟨hc, _, by rw [h, if_neg hc], ?_⟩
+    simp [RFrame.names, List.map_map, Function.comp_def]
+
+/-- **index**: the result frame lives on the joint index of the two frames (`binop_index_inner / _outer`: the sorted
+intersection / union) -/
+theorem binopF_index (op : Op) (how : How) (m : Option Dir) (ch : ColHow) (a b r : RFrame)
+    (ha : a.cols.length > 1) (hb : b.cols.length > 1) (h : binopF op how m ch (.df a) (.df b) = .df r) :
+    joinIndex how [a.idx, b.idx] = some r.idx ∧ ∀ c ∈ r.cols, c.2.length = r.idx.length := by
+  obtain ⟨ix, hix, h'⟩ := binopF_value op how m ch a b ha hb
+  rw [h'] at h
+  split at h
+  · cases h
+  · cases h
+    refine ⟨hix, ?_⟩
+    intro c hc
+    simp only [List.mem_map] at hc
+    obtain ⟨_, _, rfl⟩ := hc
+    simp
+
+/-- **cell by cell**: reading the result by label, `result[t, c] = a[t, c] op b[t, c]` for every result column `c` and
+every label `t` of the joint index -/
+theorem binopF_cell (op : Op) (how : How) (m : Option Dir) (ch : ColHow) (a b r : RFrame)
+    (ha : a.cols.length > 1) (hb : b.cols.length > 1) (h : binopF op how m ch (.df a) (.df b) = .df r)
+    (c : String) (t : Int) (hc : c ∈ r.names) (ht : t ∈ r.idx) :
+    cellD Option.none r Option.none c t = op.appO (cellD (some op.neutral) a m c t) (cellD (some op.neutral) b m c t) := by
+  obtain ⟨ix, hix, h'⟩ := binopF_value op how m ch a b ha hb
+  rw [h'] at h
+  split at h
+  · cases h
+  · cases h
+    have hc' : c ∈ frameCols ch a b := by simpa [RFrame.names, List.map_map, Function.comp_def] using hc
+    exact cell_of_built Option.none ix (frameCols ch a b)
+      (fun c t => op.appO (cellD (some op.neutral) a m c t) (cellD (some op.neutral) b m c t)) c t hc' ht
 
 /-! ### non-vacuity and evaluation checks
 (`Rat` arithmetic does not reduce in the kernel, so concrete results are `#guard` evaluation tests, not theorems) -/
